@@ -292,6 +292,21 @@ pub fn special_cases() -> Vec<(String, Vec<u8>)> {
             v.push((format!("nesting-{}-{}", if kind == 0 { "arrays" } else { "dicts" }, depth), fb.bytes()));
         }
     }
+    // literal strings: many line continuations, deep parenthesis nesting, many escapes
+    for (name, body) in [
+        ("string-continuations-400000", { let mut b = b"(".to_vec(); for _ in 0..400_000 { b.extend_from_slice(b"\\\n"); } b.push(b')'); b }),
+        ("string-continuations-crlf-200000", { let mut b = b"(".to_vec(); for _ in 0..200_000 { b.extend_from_slice(b"\\\r\n"); } b.push(b')'); b }),
+        ("string-nesting-400000", { let mut b = vec![b'('; 400_001]; b.extend(std::iter::repeat(b')').take(400_001)); b }),
+        ("string-escapes-400000", { let mut b = b"(".to_vec(); for _ in 0..400_000 { b.extend_from_slice(b"\\("); } b.push(b')'); b }),
+        ("hexstring-whitespace-400000", { let mut b = b"<".to_vec(); for _ in 0..400_000 { b.extend_from_slice(b" \n"); } b.extend_from_slice(b"41>"); b }),
+        ("comment-lines-400000", { let mut b = vec![]; for _ in 0..400_000 { b.extend_from_slice(b"%\n"); } b.extend_from_slice(b"7"); b }),
+    ] {
+        let mut fb = FileBuilder::new(b"");
+        basic(&mut fb);
+        fb.add_raw(3, 0, &body);
+        fb.finish_table(&[("Root", Val::r(1))], Split::Runs);
+        v.push((name.to_string(), fb.bytes()));
+    }
     // object stream containing itself / extending itself / containing the xref stream / absurd N, First
     for (name, n, first, extends, member_self) in [("objstm-extends-itself", 1i64, -1i64, Some(8u64), false), ("objstm-member-is-itself", 1, -1, None, true), ("objstm-N-huge", 2147483647, -1, None, false), ("objstm-N-negative", -1, -1, None, false), ("objstm-First-huge", 1, 2147483647, None, false), ("objstm-First-negative", 1, -5, None, false), ("objstm-N-2^64", -2, -1, None, false)] {
         let mut fb = FileBuilder::new(b"");
@@ -449,10 +464,11 @@ pub fn special_cases() -> Vec<(String, Vec<u8>)> {
 }
 
 pub fn run(tier: Tier, _seed: u64, tally: &mut Tally) -> CheckMeta {
-    let nbases = if tier.thorough() { 4 } else { 3 };
+    let nbases = 4;
     let mut n_ref_fields = 0;
     let mut n_int_fields = 0;
     let mut n_positions = 0;
+    let mut n_strings = 0;
     for base in 0..nbases {
         let objs = base_objects(base);
         // unmutated base must walk cleanly
@@ -484,6 +500,24 @@ pub fn run(tier: Tier, _seed: u64, tally: &mut Tally) -> CheckMeta {
             for p in &ints {
                 for (name, val) in boundary_numbers() {
                     muts.push(Mutation { obj: *nr, path: p.clone(), new: val.clone(), label: format!("number:{}{}={}", obj_kind(*nr), field_s(p), name) });
+                }
+            }
+            // string lengths: every string value emptied, halved and doubled (key material of the encryption dictionary, dates,
+            // text strings, palettes of indexed colour spaces)
+            {
+                let mut positions = vec![];
+                collect_positions(v, &mut vec![], &mut positions);
+                for p in &positions {
+                    if let Some(Val::Str(bytes)) = get_at(v, p) {
+                        n_strings += 1;
+                        let mut doubled = bytes.clone();
+                        doubled.extend_from_slice(bytes);
+                        for (name, nv) in [("empty", vec![]), ("halved", bytes[..bytes.len() / 2].to_vec()), ("doubled", doubled)] {
+                            if &nv != bytes {
+                                muts.push(Mutation { obj: *nr, path: p.clone(), new: Val::Str(nv), label: format!("string:{}{}={}", obj_kind(*nr), field_s(p), name) });
+                            }
+                        }
+                    }
                 }
             }
             // indirection faults: every value position (the whole object included) replaced by a reference to an object that is
@@ -593,7 +627,7 @@ pub fn run(tier: Tier, _seed: u64, tally: &mut Tally) -> CheckMeta {
     CheckMeta {
         prop: "C14",
         level: "fault_enumeration",
-        rule: format!("base documents {:?} (rich document + indirect /Length, functions of types 0/2/4, Separation/DeviceN/nested Indexed/ICC colour spaces, CCITT image, soft mask, embedded-files name tree, number tree with kids, field hierarchy); single faults: every one of {} reference occurrences re-pointed at every object of the document, an undefined number, 0 and a number beyond /Size, and every one of {} integer occurrences set to each of {{-1, 0, 1, 2, 3, 16, 2^31-1, 2^32-1, 2^64-1, -2^31, 65536}}; indirection faults: every one of {} value positions (whole objects included) replaced by a reference to a self-referencing object, a two-object reference cycle, the containing object, or a new object holding the old value; double faults: all pairs of re-wirings inside 9 structural fragments; {} special structures (/Prev loops, nesting 20..200000, object streams containing/extending themselves, xref stream /W (full product over 7 widths) /Index /Size, 8-byte offsets near 2^64 with and without a prefix, object stream header numbers near 2^63 and every pair of member offsets over 8 boundary values, page-tree counts summing beyond 2^32, classic table boundary values, PostScript roll/index/copy operands). Every case x {{strict, tolerant}} x {{cached, uncached}} is walked completely (C01 walker incl. scan and function application) in a worker process: no panic, no crash (stack overflow, abort, OOM under a 3 GiB address-space limit), no call exceeding 10 s. Distinct by file hash x configuration.", &BASES[..nbases], n_ref_fields, n_int_fields, n_positions, specials.len()),
+        rule: format!("base documents {:?} (rich document + indirect /Length, functions of types 0/2/4, Separation/DeviceN/nested Indexed/ICC colour spaces, CCITT image, soft mask, embedded-files name tree, number tree with kids, field hierarchy); single faults: every one of {} reference occurrences re-pointed at every object of the document, an undefined number, 0 and a number beyond /Size, and every one of {} integer occurrences set to each of {{-1, 0, 1, 2, 3, 16, 2^31-1, 2^32-1, 2^64-1, -2^31, 65536}}; every one of {} string values emptied / halved / doubled; indirection faults: every one of {} value positions (whole objects included) replaced by a reference to a self-referencing object, a two-object reference cycle, the containing object, or a new object holding the old value; double faults: all pairs of re-wirings inside 9 structural fragments; {} special structures (/Prev loops, nesting 20..200000, literal strings with 400000 line continuations / nested parentheses / escapes, hex strings and comments of that size, object streams containing/extending themselves, xref stream /W (full product over 7 widths) /Index /Size, 8-byte offsets near 2^64 with and without a prefix, object stream header numbers near 2^63 and every pair of member offsets over 8 boundary values, page-tree counts summing beyond 2^32, classic table boundary values, PostScript roll/index/copy operands). Every case x {{strict, tolerant}} x {{cached, uncached}} is walked completely (C01 walker incl. scan and function application) in a worker process: no panic, no crash (stack overflow, abort, OOM under a 3 GiB address-space limit), no call exceeding 10 s. Distinct by file hash x configuration.", &BASES[..nbases], n_ref_fields, n_int_fields, n_strings, n_positions, specials.len()),
         assumptions: vec!["time and memory proportionality is decided only against fixed generous thresholds (10 s, 3 GiB) - three orders of magnitude above the normal cost of these ~10 KB documents".into()],
         exhaustive: true,
         bounds: json!({"faults": 2}),
